@@ -169,7 +169,6 @@ Record run_out := {
   r_status : N;                 (* 0 ok, 1 error *)
 }.
 
-Definition nl : str := [10].
 
 (** [can_write p]: opening [p] for writing (create/truncate) succeeds.
     With -print the code goes to stdout byte-identically, whether or not the
